@@ -36,6 +36,7 @@ FIELD_PROPS = {
     },
     "lay": {},
     "crash": {},
+    "fault": {},
     "blk": {
         "block-events": ["C09"],
         "hyb-ret": ["C01", "C17", "C12"],
@@ -689,5 +690,56 @@ CLAIMS.update({
                     "recovery functions; crashes reorder nothing and tear only at page granularity",
             "technique": "Lean 4 proof (scanner/recovery soundness lemmas) + exhaustive crash-point enumeration validated against "
                          "the recovery model"},
+})
+PROPS.update({
+    "C03": {
+        "domain": "fault",
+        "proof_module": "FoyerProofs.C03",
+        "extra_modules": ["FoyerProofs.C01"],
+        "theorems": ["Foyer.Codec.decEntry_sound", "Foyer.Codec.load_genuine_or_error", "Foyer.Codec.decEntry_detects",
+                     "Foyer.Codec.decHeader_rejects", "Foyer.Blk.scan_subset", "Foyer.Blk.recoverBlock_subset",
+                     "Foyer.Hyb.disk_lookup_own_key_or_miss"],
+        "monitor_props": ["C03"],
+        "campaigns": {
+            "quick": [{"name": "fault-enum", "args": ["cases=25", "maxops=14", "watchdog=20"]}],
+            "thorough": [{"name": "fault-enum", "args": ["cases=600", "maxops=24", "watchdog=30"]}],
+        },
+        "nontrivial": r"op=fault kind=(flip|zero|swapw|swapx|stale|tombflip|multi)",
+        "rule": "a workload (inserts of all size classes, overwrites, storage-writer inserts, removes, waits, evictions; both "
+                "write policies, tombstone log on/off) runs on the real hybrid cache and is closed gracefully; then for EVERY page "
+                "of every partition of the final device image (6 blocks x 4 pages, plus the tombstone page): the page zeroed, a "
+                "bit flipped inside the bytes the reader must notice (anywhere in a blob index or tombstone page; inside an "
+                "entry's header length / checksum / magic fields or its payload), the page swapped with the next page of its "
+                "block and with the same page of the next block, the page replaced by each of its two previous generations; plus "
+                "random sets of 2-4 of these faults; a fresh store is opened on every damaged image in quiet recovery mode and "
+                "every key is read; the damaged partitions are re-described from their bytes with the real primitive parsers "
+                "(blob index reader, entry header + checksum) and the recovery + load model predicts the reads; the C03 monitor "
+                "checks the reads on their own; non-trivial = at least one fault; distinct = distinct (cfg, workload)",
+        "trusted_base": TB_COMMON,
+        "assumptions": [
+            "XxHash64 tells every injected damaged payload / index page from the stored one (hypothesis of "
+            "load_genuine_or_error; checked on each injected fault by the campaign, not provable)",
+            "compression none only (BlockEngineConfig has no compression setter in this snapshot: the builder's "
+            "with_compression never reaches the engine); the zstd / lz4 round trips are C08's",
+            "bytes 8..24 of an entry header (hash, sequence) are covered by no checksum and are not used by load(): a flip "
+            "there is invisible and harmless, and is not injected; the tombstone log has no checksum at all: a flipped slot "
+            "can hide a key (a miss) or fail to hide a removed one (an older real value), never produce garbage",
+            "faults are applied to the image of a cleanly closed store; faults while the store is running are not modelled",
+        ],
+    },
+})
+CLAIMS.update({
+    "C03": {"text": "Lean 4 theorems about the load and recovery model for arbitrary device bytes: whatever load accepts is, bit for "
+                    "bit, the byte string the stored checksum vouches for; a genuine header followed by other bytes than were "
+                    "stored is rejected unless the checksum cannot tell them apart; bad magic / compression tags are rejected; "
+                    "recovery takes only entries listed in blob index pages present on the device; the caller's key comparison "
+                    "turns a foreign entry into a miss. Tied to /repo by exhaustive single-page fault injection (and random "
+                    "multi-fault sets) on device images of real workloads, the reopened real store's reads being compared with "
+                    "the model's and checked to be real values, misses or errors, with no panic",
+            "note": "trusted: Lean kernel; axioms propext/Classical.choice/Quot.sound; harness + sim io engine + driver + the "
+                    "real primitive parsers used to re-describe damaged partitions; the NoForgery idealisation of XxHash64; "
+                    "compression none only at engine level",
+            "technique": "Lean 4 proof (soundness of the load / recovery decoders for arbitrary bytes) + exhaustive per-page "
+                         "fault injection validated against the recovery + load model"},
 })
 NOT_CLAIMED = {}
